@@ -34,7 +34,7 @@
 (*              same canvas                                                *)
 (*                                                                         *)
 (* As generator (ParFieldGeom.cfg): every history of 1..MaxFields ranges   *)
-(* over Lo..Hi is printed once with its classification:                    *)
+(* over -NegBlocks*S .. Hi is printed once with its classification:        *)
 (*   {"f":[[mn,mx]..], "cls":[[mn % S, mx % S, #blocks]..],                *)
 (*    "empty":[#empty jobs..], "full":[#full jobs..],                      *)
 (*    "over":[#full jobs landing on a block that already holds samples..], *)
